@@ -139,3 +139,5 @@ m("C08", ["RD"], FR, "    pub fn round(self) -> Self {\n        if libm::modf(se
 m("C14", ["R36"], EX, "    if n >= 1440 {\n        return None;", "    if n >= 1400 {\n        return None;", "Option-returning table helper gives up (None, then expect panics in exp) inside the range exp reduces to", on="A1-4")
 m("C14", ["R35"], EX, "    Some(match (a > 0, b > 0) {", "    Some(match (a > 0, b > 1) {", "Option-returning table helper drops the exp(1/2) factor for b == 1", on="A1-4")
 m("C20", ["RD", "R54"], SE, "                    .ok_or_else(|| de::Error::invalid_length(1, &self))?;\n                TwoFloat::try_from((hi, lo)).map_err(|_| {\n                    de::Error::invalid_value(Unexpected::Float(lo), &\"non-overlapping low word\")\n                })", "                    .ok_or_else(|| de::Error::invalid_length(1, &self))?;\n                Ok(TwoFloat::try_from((hi, lo)).expect(\"non-overlapping low word\"))", "the sequence visitor panics on an overlapping pair instead of returning an error (explicit panics are left to RD by the form rules)")
+m("C16", ["R41"], TR, "    x + x * (x2 * polynomial!(x2, SIN_COEFFS))", "    x + x2 * (x2 * polynomial!(x2, SIN_COEFFS))", "re-ordered sine kernel multiplies the correction by x^2 instead of x", on="Z0-6")
+m("C16", ["R41"], TR, "    x + x * (x2 * polynomial!(x2, TAN_COEFFS))", "    x + x * polynomial!(x2, TAN_COEFFS)", "re-ordered tangent kernel loses the x^2 factor", on="Z0-6")
